@@ -7,11 +7,16 @@ from vlib import cmodel
 
 PID = 'C20'
 
+# B-tree seeds >= 1000 mean 1000*t + prefill: minimum degree t = 3 (nodes of 2..5 keys) and t = 16 (the degree store.c uses for
+# its free tree, nodes of 15..31 keys), prefilled to a full root, a root that has just split (children at minimum, so a delete
+# merges or borrows) and children filling up again
+BT3 = [3005, 3006, 3011, 3017, 3023, 3029]
+BT16 = [16031, 16032, 16047]
 # (mode, depth, seeds) per tier
 PLAN = {
-    'quick': [('table', 5, [0, 33, 34, 35, 36]), ('btree', 7, [0, 9, 20]), ('priq', 8, [0, 5]),
+    'quick': [('table', 5, [0, 33, 34, 35, 36]), ('btree', 7, [0, 9, 20]), ('btree', 5, BT3), ('btree', 4, BT16), ('priq', 8, [0, 5]),
               ('bitv', 0, [0]), ('dnf', 3, [0]), ('dnf10', 0, [0])],
-    'thorough': [('table', 6, [0, 33, 34, 35, 36]), ('btree', 8, [0, 9, 20]), ('priq', 10, [0, 5]),
+    'thorough': [('table', 6, [0, 33, 34, 35, 36]), ('btree', 8, [0, 9, 20]), ('btree', 6, BT3), ('btree', 5, BT16), ('priq', 10, [0, 5]),
                  ('bitv', 0, [0]), ('dnf', 3, [0]), ('dnf10', 0, [0])],
 }
 SHARDED = {'table', 'btree', 'priq', 'dnf'}
@@ -53,7 +58,7 @@ def main(tier):
         seqs = re.findall(r'^VIOLSEQ mode=(\S+) seed=(\d+) ops=(\S*)$', text, re.M)
         if stat:
             a, bb, c, d = map(int, stat.groups())
-            pm = permode.setdefault(mode, {'sequences': 0, 'steps': 0, 'outcomes': 0, 'depth': depth, 'seeds': set()})
+            pm = permode.setdefault(mode + ('' if seed < 1000 else '-t%d' % (seed // 1000)), {'sequences': 0, 'steps': 0, 'outcomes': 0, 'depth': depth, 'seeds': set()})
             pm['sequences'] += a; pm['steps'] += bb; pm['outcomes'] += c; pm['seeds'].add(seed)
             tot['sequences'] += a; tot['steps'] += bb; tot['outcomes'] += c
         for km in re.finditer(r'^KNOWN mode=(\S+) cause=(\S+) count=(\d+) first=(.*)$', text, re.M):
@@ -89,7 +94,7 @@ def main(tier):
         'samples': [
             {'module': 'table', 'seed_entries': 35, 'ops': 'set k0; set k2 (same hash); get k0; drop k2; copy',
              'encoding': '0-3 set, 4-7 get, 8-11 drop, 12 copy, 13 drop prefilled, 14 add spread key'},
-            {'module': 'btree', 't': 2, 'ops': 'insert 1..6 / delete present key; check, in-order walk, searchEQ/GE, min, max after each'},
+            {'module': 'btree', 't': '2, 3 and 16', 'ops': 'insert 1..6 / delete present key; check, in-order walk, searchEQ/GE, min, max after each'},
             {'module': 'dnf', 'atoms': 4, 'formula': '(x1 and x2) or (not x1 and not x2) compared with its 16-row truth table'},
         ],
     })
